@@ -1,5 +1,6 @@
-CONSTANTS MaxFaces = 2 MaxVal = 4 Emit = TRUE
-  Points = {0, 1, 2, 3, 4, 255, 256, 65535, 65536, 2097151, 2097152}
+CONSTANTS MaxFaces = 2 MaxVal = 3 Emit = TRUE
+  Points = {0, 1, 2, 3, 4}
+  WidthPoints = {255, 256, 65535, 65536, 2097151, 2097152}
 INIT Init
 NEXT Next
 INVARIANT Guards EmitRows
